@@ -298,6 +298,8 @@ def validate_before_decode(ctx):
                 if _is_cborload(c):
                     loads_seen += 1
                     arg = c.args[0]
+                    if isinstance(arg, App) and arg.op in ("call:io.BytesIO", "call:BytesIO"):
+                        arg = arg.args[-1]  # decoding from a stream over the same bytes
                     before = [x for x in calls[:i] if isinstance(x, App) and x.op == "call" and isinstance(x.args[0], Ref)
                               and x.args[0].obj is va and arg in x.args[1:]]
                     if not before:
